@@ -322,6 +322,8 @@ def with_communicator(rng, opts, p=0.25):
         opts['pid'] = 'sim-pid'
         if rng.random() < 0.4:
             opts['wrap'] = True
+        if rng.random() < 0.4:
+            opts['eager'] = True
     return opts
 
 
